@@ -64,10 +64,21 @@ import (
 var arrRe = regexp.MustCompile(`^A(\d+)_(.+)$`)
 var arrTy = regexp.MustCompile(`^\[(\d+)\](.+)$`)
 
-// safe turns a type into an identifier fragment: "[2]i32" -> "A2_i32".
+// safe turns a type into an identifier fragment: "[2]i32" -> "A2_i32", "[]i32" -> "Dy_i32",
+// "i32?" -> "Op_i32", "map[str]i32" -> "Mp_i32", "str ! i32" -> "Rs_i32".
 func safe(t string) string {
 	if m := arrTy.FindStringSubmatch(t); m != nil {
 		return "A" + m[1] + "_" + safe(m[2])
+	}
+	switch {
+	case strings.HasPrefix(t, "[]"):
+		return "Dy_" + safe(t[2:])
+	case strings.HasPrefix(t, "map[str]"):
+		return "Mp_" + safe(t[8:])
+	case strings.HasPrefix(t, "str ! "):
+		return "Rs_" + safe(t[6:])
+	case strings.HasSuffix(t, "?"):
+		return "Op_" + safe(t[:len(t)-1])
 	}
 	return t
 }
@@ -75,6 +86,16 @@ func safe(t string) string {
 func unsafeT(s string) string {
 	if m := arrRe.FindStringSubmatch(s); m != nil {
 		return "[" + m[1] + "]" + unsafeT(m[2])
+	}
+	switch {
+	case strings.HasPrefix(s, "Dy_"):
+		return "[]" + unsafeT(s[3:])
+	case strings.HasPrefix(s, "Mp_"):
+		return "map[str]" + unsafeT(s[3:])
+	case strings.HasPrefix(s, "Rs_"):
+		return "str ! " + unsafeT(s[3:])
+	case strings.HasPrefix(s, "Op_"):
+		return unsafeT(s[3:]) + "?"
 	}
 	return s
 }
@@ -119,6 +140,16 @@ func value(t string) string {
 			el = append(el, g(m[2]))
 		}
 		return "[" + strings.Join(el, ", ") + "]"
+	}
+	switch {
+	case strings.HasPrefix(t, "[]"):
+		return "[" + g(t[2:]) + ", " + g(t[2:]) + "]"
+	case strings.HasPrefix(t, "map[str]"):
+		return "{ \"k\" => " + g(t[8:]) + " } as " + t
+	case strings.HasPrefix(t, "str ! "):
+		return g(t[6:])
+	case strings.HasSuffix(t, "?"):
+		return g(t[:len(t)-1])
 	}
 	panic("value: " + t)
 }
@@ -169,6 +200,9 @@ func declFor(id string) (string, bool) {
 	}
 	if s, t, ok := cut("m_"); ok {
 		return fmt.Sprintf("fn (p: Pt) m_%s(v: %s) -> %s { return v; }", s, t, t), true
+	}
+	if s, t, ok := cut("take_"); ok {
+		return fmt.Sprintf("fn take_%s(v: %s) { }", s, t), true
 	}
 	if s, t, ok := cut("vd_"); ok {
 		return fmt.Sprintf("fn vd_%s(v: %s) { }", s, t), true
@@ -653,6 +687,17 @@ func variants() []variant {
 		add(variant{rule: "argtype", form: "fn", ty: p.a + "." + p.b, cty: p.b, core: i < 5, mut: ex("id_"+s+"("+y+")", p.b), ctl: ex("id_"+s+"("+x+")", p.b)})
 		add(variant{rule: "argtype", form: "method", ty: p.a + "." + p.b, cty: p.b, core: i == 0, mut: ex("g_Pt().m_"+s+"("+y+")", p.b), ctl: ex("g_Pt().m_"+s+"("+x+")", p.b)})
 		add(variant{rule: "argtype", form: "second", ty: p.a + "." + p.b, cty: p.b, core: i == 0 || i == 5, mut: ex("two_"+s+"("+x+", "+y+")", p.b), ctl: ex("two_"+s+"("+x+", "+x+")", p.b)})
+	}
+
+	// R7b: the same constructor over a different element type (dynamic array, fixed array,
+	// optional, map, result): no implicit conversion between them, whatever the elements allow
+	for i, p := range []pair{{"[]i64", "[]i32"}, {"[]i32", "[]i64"}, {"[2]i64", "[2]i32"}, {"[2]i32", "[2]i64"}, {"[3]i32", "[2]i32"}, {"i64?", "i32?"}, {"str?", "i32?"},
+		{"map[str]i64", "map[str]i32"}, {"map[str]f64", "map[str]i32"}, {"map[str]i32", "map[str]i64"}, {"map[str]str", "map[str]i32"}, {"[]str", "[]i32"}, {"[]f64", "[]i32"}, {"[]Pt", "[]i32"}} {
+		s, x, y := safe(p.b), g(p.b), g(p.a)
+		add(variant{rule: "composite", form: "arg", ty: safe(p.a) + "." + safe(p.b), cty: safe(p.b), core: i < 8, mut: st("take_" + s + "(" + y + ");"), ctl: st("take_" + s + "(" + x + ");")})
+		add(variant{rule: "composite", form: "let", ty: safe(p.a) + "." + safe(p.b), cty: safe(p.b), core: i < 8, mut: st("let cq: " + p.b + " = " + y + ";"), ctl: st("let cq: " + p.b + " = " + x + ";")})
+		add(variant{rule: "composite", form: "assign", ty: safe(p.a) + "." + safe(p.b), cty: safe(p.b), core: i == 0 || i == 7, mut: st("let cq: " + p.b + " = " + x + "; cq = " + y + ";"), ctl: st("let cq: " + p.b + " = " + x + "; cq = " + x + ";")})
+		add(variant{rule: "composite", form: "field", ty: safe(p.a) + "." + safe(p.b), cty: safe(p.b), core: i == 0 || i == 7, mut: st("let cb := { .F = " + y + " } as Box_" + s + ";"), ctl: st("let cb := { .F = " + x + " } as Box_" + s + ";")})
 	}
 
 	// R8: undefined name
